@@ -178,7 +178,7 @@ package iavl
 //@ func (*TreeIterator).stepAscend(i)
 //@   props C19
 //@   nosafety
-//@   requires i != nil && i.valid
+//@   requires i != nil && i.valid && i.tree != nil
 //@   loop 1 invariant i.valid && i.started == old(i.started) && i.start == old(i.start) && i.end == old(i.end) && i.inclusive == old(i.inclusive) && i.tree == old(i.tree)
 //@   ensures [end-respected] i.valid ==> i.end == nil || ite(i.inclusive, ord(i.key) <= ord(i.end), ord(i.key) < ord(i.end))
 //@   ensures [start-respected] i.valid && !old(i.started) ==> ord(i.key) >= ord(i.start)
@@ -190,7 +190,7 @@ package iavl
 //@ func (*TreeIterator).stepDescend(i)
 //@   props C19
 //@   nosafety
-//@   requires i != nil && i.valid
+//@   requires i != nil && i.valid && i.tree != nil
 //@   loop 1 invariant i.valid && i.started == old(i.started) && i.start == old(i.start) && i.end == old(i.end) && i.inclusive == old(i.inclusive) && i.tree == old(i.tree)
 //@   ensures [start-respected] i.valid ==> i.start == nil || ord(i.key) >= ord(i.start)
 //@   ensures [end-respected] i.valid && !old(i.started) && i.end != nil && !i.inclusive ==> ord(i.key) < ord(i.end)
@@ -203,7 +203,7 @@ package iavl
 //@ func (*TreeIterator).Next(i)
 //@   props C19
 //@   nosafety
-//@   requires i != nil
+//@   requires i != nil && i.tree != nil
 //@   ensures [latch] !old(i.valid) ==> !i.valid
 //@   ensures [exhausted] old(i.valid) && old(len(i.stack)) == 0 ==> !i.valid
 //@   callsite TreeIterator).stepAscend [forward] i.ascending && i.valid && len(i.stack) > 0
